@@ -55,6 +55,8 @@ class C08(Pipeline):
             raise vk.Broken("; ".join(self._vacuity))
         if self._vacuity:
             cov["vacuity_notes"] = self._vacuity
+        if getattr(self, "_timing_note", None):
+            cov["timing_note"] = self._timing_note
         return violations, known, cov
 
     def drive(self, histories):
@@ -93,7 +95,9 @@ class C08(Pipeline):
             self._vacuity.append("vacuous drive: no block with contentious evidence")
         clocks = [e["clock"] for e in events if e["act"] == "Init" and e["args"].get("world") == "clock"]
         if "straddled" not in clocks:
-            self._vacuity.append("vacuous drive: no history whose twins straddle the wall-clock boundary of the anchored world (%s)" % clocks)
+            # depends on how fast this machine is: never a reason to call the check broken, only recorded
+            self._timing_note = "no history whose twins straddle the wall-clock boundary of the anchored world (%s): the 30-day boundary scenario was not exercised in this run" % clocks
+            vk.log(self._timing_note)
         nok = sum(e["nok"] for e in blocks)
         ntx = sum(e["ntx"] for e in blocks)
         if nok == 0 or nok == ntx:
